@@ -23,10 +23,12 @@ OBJECTS = {
     # same model tag, other rated-power class (the capability set depends on both)
     "et205mid": ("ET", "ETU", 8899, "v2", 47547), "et745big": ("ET", "ETT", 8899, "v2", 47547), "et205big": ("ET", "ETU", 502, "v2", 47547),
 }
+OBJECTS.update({"dt3_f7": OBJECTS["dt3"], "et205_7f": OBJECTS["et205"], "et745tcp_01": OBJECTS["et745tcp"]})
 RATED = {"et205mid": 15000, "et745big": 25000, "et205big": 29900}
+COMM_ADDR = {"dt3_f7": 0xF7, "et205_7f": 0x7F, "et745tcp_01": 0x01}     # same registers, another communication address
 PAIRS = [("et205", "et745"), ("et205", "es_v1"), ("es_v1", "es_v2"), ("et205tcp", "et745tcp"), ("et745", "et745"),
          ("dt3", "dt1"), ("et745", "es_v2"), ("et205", "et205"), ("et205", "et205mid"), ("et745big", "et745"), ("et205big", "et205tcp"),
-         ("et205mid", "et205")]
+         ("et205mid", "et205"), ("dt3", "dt3_f7"), ("et205_7f", "et205"), ("et745tcp", "et745tcp_01"), ("dt3_f7", "et205")]
 
 
 def obj_spec(name: str, rnd: random.Random, prior: str) -> dict:
@@ -50,7 +52,10 @@ def obj_spec(name: str, rnd: random.Random, prior: str) -> dict:
     if fam == "ES":
         sim["aa55"] = {"info": list(es_info(serial, "2224E" if name == "es_v2" else "1010A")),
                        "runtime": [rnd.randrange(256) for _ in range(149)]}
-    return {"family": fam, "port": port, "sim": sim, "retries": 0}
+    spec = {"family": fam, "port": port, "sim": sim, "retries": 0}
+    if name in COMM_ADDR:
+        spec["comm_addr"] = COMM_ADDR[name]
+    return spec
 
 
 def alphabet(name: str) -> list[dict]:
